@@ -305,7 +305,14 @@ class CxS(Cx):
             c = self.const_of(pat.get("def"))
             return self.truth("Eq", v, c)
         if k == "PLit":
-            return self.truth("Eq", v, self.ev(pat["e"], env)) if pat.get("e") is not None else False
+            if pat.get("e") is not None:
+                return self.truth("Eq", v, self.ev(pat["e"], env))
+            if pat.get("lk") in ("Int", "Float", "Bool"):
+                lv = self.e_Lit(dict(pat, k="Lit"), env)
+                if pat.get("neg"):
+                    lv = -lv
+                return self.truth("Eq", v, lv)
+            raise CxUnknown("literal pattern %s" % pat.get("lk"))
         if k == "POr":
             return any(self.pmatch(p, v0, env) for p in pat["pats"])
         raise CxUnknown("pattern %s" % k)
